@@ -13,6 +13,7 @@ import (
 	"runtime"
 	"runtime/debug"
 	"sort"
+	"strconv"
 	"strings"
 	"time"
 
@@ -114,9 +115,22 @@ func worker() {
 		}
 		s := tape.Mix(*seed, *propID, i)
 		src := tape.Live(s)
+		if ix, ok := p.(interface{ Indexed() bool }); ok && ix.Indexed() {
+			// the run's first choice is its index in the batch: systematic strata
+			src = tape.LivePrefix(s, []uint32{uint32(i)})
+		}
 		wantTrace := out.WantSample()
 		src.KeepLabels = false
+		t0 := time.Now()
 		res := safeRun(p, src, wantTrace)
+		if ms := os.Getenv("VERIF_SLOWRUN_MS"); ms != "" {
+			if lim, _ := strconv.Atoi(ms); lim > 0 && time.Since(t0) > time.Duration(lim)*time.Millisecond {
+				if f, err := os.OpenFile("/var/tmp/verif-slowruns.log", os.O_APPEND|os.O_CREATE|os.O_WRONLY, 0o644); err == nil {
+					fmt.Fprintf(f, "SLOWRUN prop=%s run=%d took=%v draws=%d faults=%v\n", *propID, i, time.Since(t0).Round(time.Millisecond), src.Consumed(), res.Faults)
+					f.Close()
+				}
+			}
+		}
 		out.Add(i, src, res)
 		if res.Poisoned {
 			// parked tasks hold real locks: this process cannot run anything else
